@@ -153,7 +153,11 @@ fn direct_paths(thorough: bool, rep: &mut Report) {
     rep.add("paths_enumerated", paths.len() as u64);
 }
 
-const MUT_CHARS: [&str; 20] = ["a", "f", "g", "0", "A", "F", " ", "\\", "n", "r", "(", ")", "=", "\n", "\r", "\0", "\u{FFFD}", "é", "𝄞", "\t"];
+// ASCII hex and non-hex, separators, escapes, controls, and non-ASCII characters - among them ones
+// whose code point has an ASCII hex digit as its low byte (U+0130 '0', U+0135 '5', U+0161 'a',
+// U+0166 'f', U+0146 'F', U+10039 '9'), which a truncating `as u8` would take for that digit.
+const MUT_CHARS: [&str; 26] = ["a", "f", "g", "0", "A", "F", " ", "\\", "n", "r", "(", ")", "=", "\n", "\r", "\0", "\u{FFFD}", "é", "𝄞", "\t",
+    "\u{0130}", "\u{0135}", "\u{0161}", "\u{0166}", "\u{0146}", "\u{10039}"];
 
 fn valid_lines() -> Vec<String> {
     let h1 = hexs(&b3spec::hash32(&b3spec::Mode::hash(), b"one"));
@@ -263,6 +267,22 @@ fn direct_lines(thorough: bool, rep: &mut Report) {
             };
             judge_line(&l, rep, "hashfield");
             n += 1;
+        }
+    }
+    // hash fields of exactly 64 *characters* (more than 64 bytes) with one look-alike character
+    for ch in ["\u{0130}", "\u{0135}", "\u{0161}", "\u{0166}", "\u{FF10}", "\u{10039}"] {
+        for pos in [0usize, 1, 31, 32, 62, 63] {
+            for form in [Form::Plain, Form::Tag] {
+                let mut field: Vec<char> = hx.chars().collect();
+                field[pos] = ch.chars().next().unwrap();
+                let field: String = field.into_iter().collect();
+                let l = match form {
+                    Form::Plain => format!("{}  file", field),
+                    Form::Tag => format!("BLAKE3 (file) = {}", field),
+                };
+                judge_line(&l, rep, "hashfield");
+                n += 1;
+            }
         }
     }
     // all strings of length <= 3 (4 in the thorough tier) over a 12-character alphabet
@@ -384,7 +404,7 @@ pub fn run(args: &Args, rep: &mut Report) {
     direct_paths(t, rep);
     direct_lines(t, rep);
     binary_roundtrip(t, rep);
-    rep.rule = format!("(a1) every path of length 1..{} over 13 symbols (a, space, backslash, LF, CR, parens, =, B, 0xFF, U+FFFD, e-acute, NUL) plus 19 seeds, printed by the real filepath_to_string in both forms with LF / CRLF / no terminator and parsed back by the real parse_check_line: documented format, round trip iff representable, injectivity; (a2) every single-character insert/replace/delete/duplicate with 20 characters at every position of 20 valid lines, multi-byte hash fields, all strings of length <= {} over 12 characters: never a panic, Ok only with the documented result, own output never rejected; (b) the real binary on {} real files in both forms and --check on its output; non-trivial = distinct (path, form) and distinct lines", if t { 5 } else { 4 }, if t { 4 } else { 3 }, if t { "~2200" } else { "~190" });
+    rep.rule = format!("(a1) every path of length 1..{} over 13 symbols (a, space, backslash, LF, CR, parens, =, B, 0xFF, U+FFFD, e-acute, NUL) plus 19 seeds, printed by the real filepath_to_string in both forms with LF / CRLF / no terminator and parsed back by the real parse_check_line: documented format, round trip iff representable, injectivity; (a2) every single-character insert/replace/delete/duplicate with 26 characters (incl. non-ASCII ones whose low byte is a hex digit) at every position of 20 valid lines, multi-byte hash fields, all strings of length <= {} over 12 characters: never a panic, Ok only with the documented result, own output never rejected; (b) the real binary on {} real files in both forms and --check on its output; non-trivial = distinct (path, form) and distinct lines", if t { 5 } else { 4 }, if t { 4 } else { 3 }, if t { "~2200" } else { "~190" });
     rep.assumptions.push("Unix path semantics; the print formats of hash_one_input are re-composed in (a1) and verified on the real binary in (b)".into());
 }
 
